@@ -18,19 +18,21 @@ BoolText(b) == IF b THEN "true" ELSE "false"
 Count(s, x) == Cardinality({ i \in 1 .. Len(s) : s[i] = x })
 Range(s) == { s[i] : i \in 1 .. Len(s) }
 
-MemberRows(w) == UNION { { << "[./" \o RelPath(w, z) \o "] " \o w.nodes[z].zip[k].name, ToString(ContentLen(w.nodes[z].zip[k].content)),
+Visible(w, d) == { n \in NodeIds(w) : d = 0 \/ LevelBelow(w, 0, n) <= d }
+MemberRows(w, d) == UNION { { << "[./" \o RelPath(w, z) \o "] " \o w.nodes[z].zip[k].name, ToString(ContentLen(w.nodes[z].zip[k].content)),
                               BoolText(w.nodes[z].zip[k].isdir), Str(ModeChars(w.nodes[z].zip[k].mode)), Stamp(w.nodes[z].zip[k].dos) >>
                             : k \in 1 .. Len(w.nodes[z].zip) }
-                          : z \in { n \in NodeIds(w) : w.nodes[n].iszip } }
+                          : z \in { n \in Visible(w, d) : w.nodes[n].iszip } }
 
 Why(r) ==
   LET w == r.world  a == r.obs.arc  p == r.obs.plain IN
   IF a.timed_out \/ p.timed_out THEN "timeout" ELSE IF a.panic THEN "crash"
   ELSE IF r.kind = "members" THEN
-     LET want == MemberRows(w)
+     LET want == MemberRows(w, r.variant.depth)
+         vis == Visible(w, r.variant.depth)
          extra == { a.rows[i] : i \in { j \in 1 .. Len(a.rows) : Count(p.rows, a.rows[j]) = 0 } } IN
      IF a.status # 0 THEN "status-" \o ToString(a.status)
-     ELSE IF { p.rows[i][1] : i \in 1 .. Len(p.rows) } # { "./" \o RelPath(w, n) : n \in NodeIds(w) } \/ Len(p.rows) # Len(w.nodes) THEN "plain-run-wrong"
+     ELSE IF { p.rows[i][1] : i \in 1 .. Len(p.rows) } # { "./" \o RelPath(w, n) : n \in vis } \/ Len(p.rows) # Cardinality(vis) THEN "plain-run-wrong"
      ELSE IF \E x \in Range(p.rows) : Count(a.rows, x) # Count(p.rows, x) THEN "ordinary-rows-changed"
      ELSE IF want \ extra # {} THEN (IF \E x \in want \ extra : \E y \in extra : y[1] = x[1] THEN "wrong-member-columns" ELSE "member-missing")
      ELSE IF extra \ want # {} THEN "unexpected-member-row"
